@@ -154,6 +154,8 @@ pub fn world_defs() -> Vec<WorldDef> {
         WorldDef { name: "2p-bc-seed", ports: vec![(false, false), (false, false)], slave_only: false, seed: vec![Ev::Ann(0, 0), Ev::Ann(0, 0), Ev::T(1, Timer::Receipt), Ev::Bmca], obedient: false, rich: false, depth: (4, 6) },
         WorldDef { name: "2p-p2p+masteronly", ports: vec![(true, false), (false, true)], slave_only: false, seed: vec![], obedient: false, rich: false, depth: (4, 6) },
         WorldDef { name: "2p-slaveonly", ports: vec![(false, false), (false, false)], slave_only: true, seed: vec![], obedient: false, rich: false, depth: (5, 6) },
+        // both ports on one segment: every Announce of A or B reaches both ports as the same frame
+        WorldDef { name: "2p-shared-segment", ports: vec![(false, false), (false, false)], slave_only: false, seed: vec![], obedient: false, rich: false, depth: (5, 6) },
         WorldDef { name: "3p-mixed", ports: vec![(false, false), (true, false), (false, true)], slave_only: false, seed: slave_seed, obedient: true, rich: false, depth: (4, 5) },
     ]
 }
@@ -171,8 +173,19 @@ pub fn build<'m, M: Monitor>(property: &'static str, monitor: &'m M, defs: Vec<W
                 a = port_alphabet(a, p, *p2p, d.rich);
             }
             a = global_alphabet(a);
+            let mut macros = vec![];
+            if d.name.contains("shared-segment") {
+                // the same frame (same sequence id) on every port, in port order
+                for k in 0..2 {
+                    let mut m = vec![Ev::Ann(0, k)];
+                    m.extend((1..d.ports.len()).map(|q| Ev::AnnDup(q, k)));
+                    macros.push(m);
+                }
+                a.0.retain(|e| !matches!(e, Ev::Ann(_, 0) | Ev::Ann(_, 1)));
+                a = a.add(Ev::Macro(0)).add(Ev::Macro(1));
+            }
             (
-                WorldSys { property, name: d.name.to_string(), cfg, seed: d.seed, alphabet: a.0, obedient: d.obedient, monitor, macros: vec![] },
+                WorldSys { property, name: d.name.to_string(), cfg, seed: d.seed, alphabet: a.0, obedient: d.obedient, monitor, macros },
                 d.depth,
             )
         })
